@@ -5,6 +5,7 @@
  *   X <schedule op>      limit / feed / oneshot / drain / setfn / script / pull / pulldrain / proc / ratio / nullout
  *   X clear              soxr_clear; recipes without RESET_ON_CLEAR are re-initialised by soxr_set_io_ratio as soxr-lsr.c
  *                        does; X's stream position and statistics start from zero again (a new stream begins)
+ *   X setch N            soxr_set_num_channels(N) ("E X setch <msg>" if it fails)
  *   X hash               "H X engine= out= pos= clips= err= delay= calls= log= fn= <hash of every channel's bytes>"
  *   X structcmp Y        `struct soxr` of X against that of Y, field by field ("SC X Y equal" / "SC X Y diff …")
  *   X fields             the model's view of X's struct: "F X k=v …" (compared with the Lean model's clear / create)
@@ -95,6 +96,10 @@ int main(void)
       inst_reset_stats(I);
       I->gscript = 0; I->ngscript = I->gpos = 0;
       if (e) printf("E %s clear %s\n", I->name, e);
+    }
+    else if (!strcmp(t[1], "setch") && nt >= 3) {          /* soxr_set_num_channels (deferred channel count) */
+      soxr_error_t e = soxr_set_num_channels(I->S, (unsigned)atoi(t[2]));
+      if (e) printf("E %s setch %s\n", I->name, e); else I->ch = (unsigned)atoi(t[2]);
     }
     else if (!strcmp(t[1], "reset")) inst_reset_stats(I);
     else if (!strcmp(t[1], "fields")) print_fields(I);
